@@ -142,9 +142,10 @@ REGISTRY = {
     "C18": {
         "level": "fault_enumeration",
         "claim": "Two real secs1 connections (equipment + host) joined by a character-level middlebox that follows the E4 grammar in both directions and applies generated fault plans (one flipped character in a block's header/body/checksum, truncated or dropped blocks, dropped ENQ/EOT/ACK/NAK, ACK replaced by NAK, EOT/ACK delayed beyond T2) while both sides send multi-block messages concurrently (contention), retry limits 0..3; a token ledger checks that every send that returned success was delivered exactly once and intact, per-direction order, no duplicate or altered delivery whatever the send returned, at most retry-limit+1 line requests per block (per contention yield for the host), bounded completion, and recovery to a working line after a failed send.",
-        "trust": "Real time with T1 50 ms / T2 150 ms: only content, order, counts and generous upper bounds are asserted, so scheduling jitter can add retries but not false alarms. The length byte is never corrupted (E4 does not guarantee detection there).",
+        "trust": "Real time with T1 50 ms / T2 150 ms: only content, order, counts and generous upper bounds are asserted, so scheduling jitter can add retries but not false alarms; a failing case during which this process was scheduled more than 30 ms late is discarded as inconclusive (counted). A lowered length character whose short read happens to carry a valid checksum (2^-16) is outside what E4 detects: detected by the proxy and discarded (counted). The receive half (inter-block T4 counted from the previous block, duplicates, header changes) is additionally compared with the reference assembler under an injected clock (TestC17Assembler).",
         "technique": "property-based testing (rapid): generated fault plans x concurrent send programs through an E4-aware fault-injecting proxy; exactly-once ledger oracle",
         "tests": [
+            {"name": "TestC17Assembler", "shards": 2, "shards_thorough": 8},
             {"name": "TestC18ExactlyOnce", "shards": 8, "shards_thorough": 8, "crash_is_violation": True},
         ],
         "require": {"c18:contention": 71},
